@@ -177,7 +177,7 @@ def check_minimal_medium(net, bounds, flip, stats, rich=False, origin=None):
 def _check_minimal_medium(net, bounds, flip, stats, rich=False, origin=None):
     from cobra.medium import minimal_medium
 
-    mets, rxns = families.as_data(net, bounds)
+    mets, rxns = families.as_data(net, bounds, nm=len(net[0]))
     ids = [r[0] for r in rxns]
     bnd = [r[0] for r in rxns if len(r[1]) == 1]
     comp = {m: ("e" if any(len(r[1]) == 1 and m in r[1] for r in rxns) else "c") for m in mets}
@@ -332,6 +332,17 @@ def run_task(payload):
         return {"violations": violations[:100], "stats": stats}
     P = payload["params"]
     stats, violations = {}, []
+    if payload["kind"] == "mm_shapes":
+        for net in payload["nets"]:
+            net = tuple(tuple(c) for c in net)
+            ids = families.rxn_ids(net)
+            bnd = [i for i, c in zip(ids, net) if families.is_boundary(c)]
+            for bounds in (tuple(families.default_bounds(c) for c in net),
+                           tuple((-4, 10) if families.is_boundary(c) else (0, 10) for c in net)):
+                for flip in ((), (bnd[-1],)):
+                    stats["models"] = stats.get("models", 0) + 1
+                    violations.extend(check_minimal_medium(net, bounds, set(flip), stats, True))
+        return {"violations": violations[:300], "stats": stats}
     for net in payload["nets"]:
         net = tuple(tuple(c) for c in net)
         ids = families.rxn_ids(net)
@@ -395,6 +406,11 @@ def explore(ctx):
     if ctx.tier == "quick":
         no = no[::2]
     payloads += [{"kind": "mm", "params": P, "nets": no[i:i + 1], "origins": True} for i in range(len(no))]
+    # hand-made shapes over four metabolites: the product C comes from one substrate (A) or from two together (B and D) -
+    # media of one and of two components exist side by side; second shape: two single substrates and one pair
+    SHAPES = [((0, 0, -1, 0), (-1, 0, 0, 0), (0, -1, 0, 0), (0, 0, 0, -1), (-1, 0, 1, 0), (0, -1, 1, -1)),
+              ((0, 0, -1, 0), (-1, 0, 0, 0), (0, -1, 0, 0), (0, 0, 0, -1), (-1, 0, 1, 0), (0, -1, 1, 0), (-1, 0, 1, -1))]
+    payloads += [{"kind": "mm_shapes", "params": P, "nets": [sh]} for sh in SHAPES]
     # Part A from every origin: every initial state x every 7th assignment (the offset rotates with the state)
     payloads += [{"kind": "medium_origins", "state": [list(x) for x in st], "offset": k % 7} for k, st in enumerate(inits)]
     stats = {}
